@@ -2,3 +2,6 @@ from . import check_client
 REG = {}
 for _p in ('C01', 'C02', 'C03', 'C04'):
     REG[_p] = check_client.run
+
+from . import check_c20
+REG['C20'] = check_c20.run
